@@ -34,13 +34,13 @@ EXPLANATION = (
 
 
 def check(run, repo, tier):
-  w = World(repo)
-  r1_dependencies(run, w)
-  r2_new_records(run, w)
-  r3_exemptions(run, w)
-  r4_manual_updates(run, w)
-  r5_rebuild_trigger(run, w)
-  r6_enum(run, w, repo)
+  V = H.guarded_views
+  V(run, repo, r1_dependencies)
+  V(run, repo, r2_new_records)
+  V(run, repo, r3_exemptions)
+  V(run, repo, r4_manual_updates)
+  V(run, repo, r5_rebuild_trigger)
+  V(run, repo, r6_enum, repo)
 
 
 def _within(t, container):
